@@ -21,7 +21,7 @@ def _alarm(*a):
     raise Timeout()
 
 
-VALID = ['=A1+B1*2', '=SUM(A1:B2)', '=IF(A1>1,"x","y")', '=ROUND(B1,1)', '=A1&"t"', '=MAX(A1,B1,3)', '=LEFT("hello",2)', '=AVERAGE(A1:A2)', '=-A1%', '=COUNTIFS(A1:A2,">0")',
+VALID = ['=COLUMN()-1', '=A1+COLUMN()', '=2*COLUMN()', '=SUM(A1:A2,COLUMN())', '=MAX(COLUMN(),A1)', '=IF(COLUMN()>1,COLUMN()*2,0)', '=A1+B1*2', '=SUM(A1:B2)', '=IF(A1>1,"x","y")', '=ROUND(B1,1)', '=A1&"t"', '=MAX(A1,B1,3)', '=LEFT("hello",2)', '=AVERAGE(A1:A2)', '=-A1%', '=COUNTIFS(A1:A2,">0")',
          '=VLOOKUP(1,A1:B2,2,0)', '=IFERROR(A1/0,7)', '=DATE(2020,1,31)', '=AND(A1>0,B1>0)', '=MIN(A1:A2)', '=MATCH(2,A1:A2,0)', '=MATCH(2,A1:A2)', '=XMATCH(2,A1:A2)',
          '=INDEX(A1:B2,1,2)', '=(A1+1)*(B1-1)', '=Other!A1+1', '=COLUMN(B1)', '=SUMIF(A1:A2,">0",B1:B2)', '=MID("abcdef",2,3)', '=YEAR(DATE(2020,5,6))', '=A2', '=IFS(A1>5,1,A1>0,2)']
 UNSUPPORTED = ['=FOO(1)', '=SIN(1)', '=A1^2', '=SUMPRODUCT(A1:A2,B1:B2)', '=NOW()', '=A1:A2 B1:B2', '={1,2}', '=[Book]S!A1', '=@A1', '=#REF!+1', '=1E', '=.5', '=A1..B2', '=TRUE+FALSE()']
@@ -41,7 +41,7 @@ CONSTS = [0, 1, -7, 2.5, -0.001, 1e300, 1e-300, True, False, datetime.datetime(2
           datetime.timedelta(days=1, seconds=5), 123456789012]
 
 
-ARGFORMS = ['">007"', '"<=010"', '"<>00"', '">1.50"', '"=007"', '-1', '+2', '(A2)', 'A1%', '-B1', '"x"', '"a*"', 'A1+1', 'SUM(A1:A2)', 'TRUE', '1.5', '""', 'A1', '-A1%', '(1+2)*3', '">"&A1', 'Other!A1', 'C9', '1=1', '2*-3', 'B:B', 'A1:A2', 'ZZZZ1', 'Other!A:A', 'A1:B']
+ARGFORMS = ['COLUMN()', 'COLUMN()+1', '">007"', '"<=010"', '"<>00"', '">1.50"', '"=007"', '-1', '+2', '(A2)', 'A1%', '-B1', '"x"', '"a*"', 'A1+1', 'SUM(A1:A2)', 'TRUE', '1.5', '""', 'A1', '-A1%', '(1+2)*3', '">"&A1', 'Other!A1', 'C9', '1=1', '2*-3', 'B:B', 'A1:A2', 'ZZZZ1', 'Other!A:A', 'A1:B']
 ARGTEMPLATES = ['=SUMIF(A1:A2,{x},B1:B2)', '=SUMIF(A1:A2,{x})', '=COUNTIFS(A1:A2,{x})', '=SUMIFS(B1:B2,A1:A2,{x})', '=AVERAGEIFS(B1:B2,A1:A2,{x})', '=IF({x},1,2)',
                 '=IF(1,{x},2)', '=ROUND({x},1)', '=ROUND(2.5,{x})', '=LEFT("abc",{x})', '=MID("abcdef",{x},2)', '=VLOOKUP({x},A1:B2,2,0)', '=INDEX(A1:B2,{x},1)',
                 '=MATCH({x},A1:A2,0)', '=SUM({x},1)', '=MAX({x},A1)', '=IFERROR({x},0)', '=DATE(2020,{x},1)', '=AND({x},TRUE)', '=CONCATENATE({x},"z")',
